@@ -331,7 +331,8 @@ func conv[Int constraints.Integer | *big.Int | ~[]byte](i Int) *big.Int {
 	case reflect.Slice:
 		result.SetBytes(vi.Bytes())
 	case reflect.Ptr:
-		result = vi.Interface().(*big.Int)
+		// work on a copy: the value is shifted in place later
+		result.Set(vi.Interface().(*big.Int))
 	}
 	return result
 }
